@@ -1,2 +1,7 @@
 import RoProps.C01
 import RoProps.C04
+import RoProps.C02b
+import RoProps.C08s
+import RoProps.C12
+import RoProps.C14
+import RoProps.C09
